@@ -1,0 +1,38 @@
+//go:build verif
+
+package mcap
+
+// Read-only accessors used by the verification harness in /verif. This file is
+// compiled only with the `verif` build tag; it adds no behaviour.
+
+// VerifIteratorMemory reports, for a MessageIterator returned by
+// Reader.Messages, the number of chunk slots allocated, the number of slots
+// that still hold unread messages, and the total capacity in bytes of the
+// slot buffers plus the iterator's record buffer. ok is false for iterator
+// types it does not know.
+func VerifIteratorMemory(it MessageIterator) (slots, live int, capBytes uint64, ok bool) {
+	switch x := it.(type) {
+	case *indexedMessageIterator:
+		for i := range x.chunkSlots {
+			slots++
+			if x.chunkSlots[i].unreadMessages > 0 {
+				live++
+			}
+			capBytes += uint64(cap(x.chunkSlots[i].buf))
+		}
+		capBytes += uint64(cap(x.recordBuf))
+		return slots, live, capBytes, true
+	case *unindexedMessageIterator:
+		capBytes = uint64(cap(x.recordBuf))
+		if x.lexer != nil {
+			capBytes += uint64(cap(x.lexer.uncompressedChunk))
+		}
+		return 0, 0, capBytes, true
+	}
+	return 0, 0, 0, false
+}
+
+// VerifLexerChunkBufCap reports the capacity of the lexer's decompressed-chunk buffer.
+func VerifLexerChunkBufCap(l *Lexer) int {
+	return cap(l.uncompressedChunk)
+}
